@@ -94,6 +94,7 @@ Definition r_name (G:list srev) (n:str) : option str := r_name_in G (fun _ => tr
 Inductive expect :=
 | XOK (lbl:option str) (l:list elem)      (* exactly this *)
 | XSet (l:list elem)                      (* this set *)
+| XMay (l:list elem)                      (* exactly this, or a documented error *)
 | XFail                                   (* a documented error *)
 | XLoose                                  (* the documentation does not say: anything but an undocumented exception class *)
 | XFree.                                  (* not an identifier of the grammar: nothing is claimed *)
@@ -210,6 +211,30 @@ Definition walk_down_from (G:list srev) (start:option (option str)) (n:nat) (as_
                      end
   end.
 
+(* `label@+N` as an upgrade target ("upgrade from current heads on <label> upwards N revisions", branches.rst):
+   what is applied are the current revisions and all their ancestors through down_revision AND depends_on; the branch
+   stands at the applied revisions of the label's lineage that are not an ancestor (same full order) of another one;
+   from there N steps up, each to the only child that stays on the branch; nothing applied on the branch: from base.
+   Several such places are acceptable if they lead to the same revision (the code may also refuse them as ambiguous).
+   Only said for a consistent version table: distinct existing revisions, none an ancestor of another. *)
+Definition r_all_parents (G:list srev) (x:str) : list str :=
+  match find_rev G x with Some r => s_down r ++ s_deps r | None => [] end.
+Definition r_anc_full (G:list srev) (x y:str) : bool := mems y (reach (length G) (r_all_parents G) x).
+Definition r_applied (G:list srev) (cur:list str) : list str := dedupes (flat_map (reach (length G) (r_all_parents G)) cur).
+Definition r_consistent (G:list srev) (cur:list str) : bool :=
+  forallb (fun c => mems c (ids G)) cur && Nat.eqb (length (dedupes cur)) (length cur) &&
+  forallb (fun c => forallb (fun c' => streqb c c' || negb (r_anc_full G c c')) cur) cur.
+Definition r_branch_tips (G:list srev) (b:str) (cur:list str) : list str :=
+  let onb := filter (r_lineage G b) (r_applied G cur) in
+  filter (fun x => negb (existsb (fun y => negb (streqb x y) && r_anc_full G y x) onb)) onb.
+Definition expect_eqb (a b:expect) : bool :=
+  match a, b with
+  | XOK l1 e1, XOK l2 e2 => optstr_eqb l1 l2 && list_eqb' elem_eqb e1 e2
+  | XFail, XFail => true
+  | _, _ => false
+  end.
+Definition weaken (x:expect) : expect := match x with XOK None l => XMay l | XFail => XFail | _ => XLoose end.
+
 Definition ref_up (G:list srev) (cur:list str) (i:ident) : expect :=
   match i_rel i with
   | None => ref_revs G i
@@ -222,7 +247,21 @@ Definition ref_up (G:list srev) (cur:list str) (i:ident) : expect :=
       | None =>
           if (0 <? z)%Z then
             match i_lbl i with
-            | Some _ => XLoose
+            | Some L =>
+                match r_name G L with
+                | None => XFail
+                | Some b =>
+                    if r_consistent G cur then
+                      match r_branch_tips G b cur with
+                      | [] => walk_up_from G (Some None) (i_lbl i) (Z.abs_nat z) None
+                      | [c] => walk_up_from G (Some (Some c)) (i_lbl i) (Z.abs_nat z) None
+                      | c :: cs =>
+                          let r := walk_up_from G (Some (Some c)) (i_lbl i) (Z.abs_nat z) None in
+                          if forallb (fun c' => expect_eqb (walk_up_from G (Some (Some c')) (i_lbl i) (Z.abs_nat z) None) r) cs
+                          then weaken r else XLoose
+                      end
+                    else XLoose
+                end
             | None => match cur with
                       | [] => walk_up_from G (Some None) None (Z.abs_nat z) None
                       | [c] => walk_up_from G (r_one G None (classify_word c)) None (Z.abs_nat z) None
@@ -294,6 +333,8 @@ Definition agree (x:expect) (o:outcome) : bool :=
   | XOK lbl l, OK lbl' l' => optstr_eqb lbl lbl' && list_eqb' elem_eqb l l'
   | XSet l, OK None l' => forallb (elem_in l') l && forallb (elem_in l) l' && Nat.eqb (length l) (length l')
   | XFail, Fail e => documented e
+  | XMay l, OK None l' => list_eqb' elem_eqb l l'
+  | XMay _, Fail e => documented e
   | XLoose, OK _ _ => true
   | XLoose, Fail e => documented e
   | XFree, _ => true
